@@ -236,11 +236,19 @@ fn apply(pp: &mut ParsedPacket, model: &MMsg, op: &Op, prop: &str) -> Result<Out
                 None => return Ok(Outcome { model: m, failed: false }),    // no such record: nothing happened
                 Some(Ok((readback, rtype))) => {
                     if !valid { return Err("set_raw_name accepted an invalid name".into()); }
+                    if pp.packet.as_ref().map(|p| p.len()).unwrap_or(0) > 0xffff { return Err("set_raw_name produced a packet larger than 65535 bytes".into()); }
                     let nn = n[..wire::name_walk(n, 0).unwrap().0].to_vec();
                     if *s == 0 { if let Some(q) = &mut m.q { q.0 = nn.clone(); } } else { let rec = &mut m.secs[(*s - 1) as usize][*k]; rec.name = nn.clone(); if rec.rtype != rtype { return Err("iterator no longer designates the record after set_raw_name".into()); } }
                     if !nn.iter().any(|&c| wire::bad_char(c) && c != 0) || true { if readback != wire::to_text(&nn) { return Err(format!("name reads back as {:?}", String::from_utf8_lossy(&readback))); } }
                 }
-                Some(Err(_)) => { failed = true; if valid { return Err("set_raw_name rejected a valid name".into()); } }
+                Some(Err(_)) => { failed = true;
+                    if valid {
+                        // the one legitimate refusal of a valid name: the (pointer-free) packet would exceed 65535 bytes
+                        let mut after = m.clone();
+                        let nn = n[..wire::name_walk(n, 0).unwrap().0].to_vec();
+                        if *s == 0 { if let Some(q) = &mut after.q { q.0 = nn; } } else if let Some(rec) = after.secs[(*s - 1) as usize].get_mut(*k) { rec.name = nn; }
+                        if encode(&after).len() <= 0xffff { return Err("set_raw_name rejected a valid name".into()); }
+                    } }
             }
         }
         Op::Delete(s, k) => {
@@ -540,6 +548,24 @@ pub fn gen(prop: &str, r: &mut Rng, _filter: &str) -> Vec<String> {
             if r.chance(1, 8) { t = { let mut v = vec![]; for _ in 0..3 { v.push(63); v.extend(std::iter::repeat(b't').take(63)); } v.push(40); v.extend(std::iter::repeat(b'u').take(40)); v.push(0); v } }
             if s.len() <= 1 || t.len() <= 1 { return vec![]; }
             vec![prop.into(), "ren".into(), hex(&p), hex(&t), hex(&s), r.below(2).to_string()]
+        }
+        "c10" if r.chance(1, 16) => {
+            // the 64 KiB limit of the resizing mutators: a pointer-free response just below 65535 bytes whose first answer gets a long owner name
+            let slack = r.below(300) as usize;
+            let target = 65535 - slack;
+            let mut q: Vec<u8> = vec![0x12, 0x34, 0x80, 0, 0, 1, 0, 0, 0, 0, 0, 0, 1, b'q', 0, 0, 1, 0, 1];
+            q.extend_from_slice(&[1, b'a', 0, 0, 1, 0, 1, 0, 0, 0, 9, 0, 4, 10, 0, 0, 1]);
+            let mut n = 1u16;
+            while q.len() < target {
+                let room = target - q.len();
+                let data = if room >= 11 + 4000 + 11 { 4000 } else { room - 11 };
+                q.push(0); q.extend_from_slice(&[0, 99, 0, 1, 0, 0, 0, 5]); q.push((data >> 8) as u8); q.push(data as u8); q.extend(std::iter::repeat(7u8).take(data));
+                n += 1;
+            }
+            q[6] = (n >> 8) as u8; q[7] = n as u8;
+            if q.len() != target || wire::parse_ref(&q).is_none() { return vec![]; }
+            let mut name = vec![]; for _ in 0..(1 + r.below(4)) { name.push(60); name.extend(std::iter::repeat(b'n').take(60)); } name.push(0);
+            vec![prop.into(), "seq".into(), hex(&q), op_to_str(&Op::SetName(1, 0, name))]
         }
         "c10" if r.chance(1, 12) => {
             // the exact boundary of the size cap: a pointer-free packet of 8192 - 17 + d bytes (d = -1, 0, +1, +2), then the 17-byte record "a. 60 IN A 1.2.3.4"
